@@ -62,6 +62,14 @@ CHECKS = {
          "The single-child configuration space is enumerated completely (exhaustive: true for that part); longer chains and joins are generated. Oracle: conflicts raise ValueError and nothing else does, bindings are inherited, asynchronous pipelines stay on the caller's loop and thread. Exploration (with an exhaustively enumerated finite part).",
          "Trusted: the binding model in props/c19.py (written from the Stream docstring and C19); None and False are the same effective mode.",
          "DESIGN.md section 4 C19"),
+ "C06": ("Hypothesis-generated tables x batch splits (incl. empty batches) x expression trees; differential oracle: streamz result after batch k == the same pandas expression on the concatenated prefix",
+         "Generated-input differential testing against pandas as the reference implementation, for every split position and every prefix. Exploration only.",
+         "Trusted: pandas 3.0 as the reference; comparison rules in props/dfcommon.py (label set + values within 1e-9, NaN==NaN; dtype/order ignored).",
+         "DESIGN.md section 4 C06"),
+ "C07": ("Hypothesis-generated tables (row-count and time-indexed) x splits x window sizes/durations x aggregations and windowed groupby; differential oracle against pandas on the window slice of the concatenated prefix",
+         "Generated-input differential testing against pandas on exactly the rows inside the window, after every batch. Exploration only.",
+         "Trusted: pandas as the reference; window slice definitions cat.iloc[-N:] and index > max - T.",
+         "DESIGN.md section 4 C07"),
 }
 NOT_YET = "check not built yet in this session (the property is decidable with this technique; see DESIGN.md section 4)"
 
